@@ -1832,8 +1832,14 @@ impl TypeCheckVisitor<'_> {
         let inferred_lhs_ty = self.infer_expr(lhs, type_bindings, expected_return_ty);
         let inferred_rhs_ty = self.infer_expr(rhs, type_bindings, expected_return_ty);
 
+        // `NoValue` is a subtype of both `Int` and `Float`, so it says
+        // nothing about which operator was intended.
+        let both_no_value = inferred_lhs_ty.is_no_value() && inferred_rhs_ty.is_no_value();
+
         // Add a special case for users confusing the int and float operators.
-        if is_subtype(&inferred_lhs_ty, &Type::int()) && is_subtype(&inferred_rhs_ty, &Type::int())
+        if !both_no_value
+            && is_subtype(&inferred_lhs_ty, &Type::int())
+            && is_subtype(&inferred_rhs_ty, &Type::int())
         {
             let (int_op, float_op) = match op.kind {
                 BinaryOperatorKind::AddFloat => ("+", "+."),
@@ -1900,7 +1906,11 @@ impl TypeCheckVisitor<'_> {
         let inferred_lhs_ty = self.infer_expr(lhs, type_bindings, expected_return_ty);
         let inferred_rhs_ty = self.infer_expr(rhs, type_bindings, expected_return_ty);
 
-        if let Some((int_op, float_op)) = op_pairs {
+        // `NoValue` is a subtype of `Int`, `Float` and `String`, so it
+        // says nothing about which operator was intended.
+        let both_no_value = inferred_lhs_ty.is_no_value() && inferred_rhs_ty.is_no_value();
+
+        if let Some((int_op, float_op)) = op_pairs.filter(|_| !both_no_value) {
             // Add a special case for users confusing the int and float operators.
             if is_subtype_not_error(&inferred_lhs_ty, &Type::float())
                 && is_subtype_not_error(&inferred_rhs_ty, &Type::float())
